@@ -155,7 +155,7 @@ impl Leg for PyAcgt {
         v.nontrivial = c.x != 0 && c.x != model::pow4(c.k) - 1;
         let want = String::from_utf8(model::decode(c.x, c.k)).unwrap();
         match crate::pyworker::ask(&serde_json::json!({"op": "acgt", "k": c.k, "x": c.x})) {
-            Err(e) => v.fail("python-worker", e),
+            Err(e) => crate::pyworker::record_error(&mut v, e),
             Ok(r) => {
                 let got: Vec<String> = r["ok"].as_array().map(|a| a.iter().map(|x| x.as_str().unwrap_or("").to_string()).collect()).unwrap_or_default();
                 if got.len() != 2 || got[0] != want || got[1] != want {
@@ -182,6 +182,7 @@ pub fn run(ctx: &mut Ctx) {
     ctx.run_leg::<Codes>(n1, false, 2000);
     let n2 = ctx.share(ctx.tier.pick(30_000, 600_000));
     ctx.run_leg::<Seqs>(n2, false, 4000);
+    crate::pyworker::infra_inconclusive(ctx);
 }
 
 pub fn replay(leg: &str, case: &serde_json::Value) -> Option<Result<Verdict, String>> {
